@@ -59,6 +59,50 @@ def _subst_attrs(t, env):
     return tuple(_subst_attrs(x, env) if isinstance(x, tuple) else x for x in t)
 
 
+def _none_test_outcome(test, ps):
+    """`<name> is None` / `is not None` (possibly under `not`) when the path's environment decides it: the name holds the
+    constant None, or it holds a value on which a method was already called successfully on this path (so it is not None)."""
+    e, pol = test, True
+    while isinstance(e, ast.UnaryOp) and isinstance(e.op, ast.Not):
+        e, pol = e.operand, not pol
+    if not (isinstance(e, ast.Compare) and len(e.ops) == 1 and isinstance(e.ops[0], (ast.Is, ast.IsNot))):
+        return None
+    a, b = e.left, e.comparators[0]
+    if isinstance(a, ast.Constant) and a.value is None:
+        a, b = b, a
+    if not (isinstance(b, ast.Constant) and b.value is None and isinstance(a, ast.Name)):
+        return None
+    v = ps.env.get(a.id)
+    if v is None:
+        return None
+    is_none = None
+    if v == ("const", None):
+        is_none = True
+    elif v[0] == "const":
+        is_none = False
+    else:
+        for ev in ps.events:
+            if ev[0] == "call" and isinstance(ev[1], tuple) and len(ev[1]) >= 2 and ev[1][0] == "call" and isinstance(ev[1][1], tuple) and \
+                    ev[1][1][0] == "method" and ev[1][1][1] == v:
+                is_none = False
+        # a branch outcome on `<name>.method(...)` recorded as a fact: the method call was evaluated on this path
+        for (k, _t) in ps.facts:
+            for part in k[1:]:
+                if not (isinstance(part, str) and "(" in part and "." in part):
+                    continue
+                try:
+                    pe = ast.parse(part, mode="eval").body
+                except SyntaxError:
+                    continue
+                for c in ast.walk(pe):
+                    if isinstance(c, ast.Call) and isinstance(c.func, ast.Attribute) and isinstance(c.func.value, ast.Name) and ps.env.get(c.func.value.id) == v:
+                        is_none = False
+    if is_none is None:
+        return None
+    outcome = is_none if isinstance(e.ops[0], ast.Is) else (not is_none)
+    return outcome if pol else (not outcome)
+
+
 def _first_ifexp(e):
     """The first conditional expression of `e` that is evaluated unconditionally (not inside a lambda / comprehension / the
     second operand of and/or / a branch of another conditional)."""
@@ -233,6 +277,9 @@ def summarize(fi, max_paths=400, unroll=1, follow_exc=False):
             nps = _fork(ps)
             if node.kind == "test" and isinstance(lab, bool):
                 ghosts = tuple(p for p in params if p not in rebound)
+                known = _none_test_outcome(node.ast, nps)
+                if known is not None and known != lab:
+                    continue  # `x is None` decided by what x holds on this path
                 r = refine_bool(node.ast, lab, nps.facts, atom_for(ghosts), join)
                 if r is None:
                     continue  # infeasible given what is known
